@@ -24,6 +24,8 @@ func main() {
 		graphMain(os.Args[2:])
 	case "caseconv":
 		ccMain(os.Args[2:])
+	case "parse":
+		parseMain(os.Args[2:])
 	default:
 		fmt.Fprintln(os.Stderr, "unknown subcommand", os.Args[1])
 		os.Exit(2)
